@@ -132,6 +132,27 @@ MUTS = {
 					newKubeAppProber[k] = v
 				}''')]),
     "P12-revert-F10d-status-port": (WH, [('''DumpAppProbers(pod, probeStatusPort(pod.Annotations, req.meshConfig.GetDefaultConfig().GetStatusPort()))''', '''DumpAppProbers(pod, req.meshConfig.GetDefaultConfig().GetStatusPort())''')]),
+    "R1-webhook-ignored-namespaces-nil": (WH, [('''	if !injectRequired(IgnoredNamespaces.UnsortedList(), wh.Config, &pod.Spec, pod.ObjectMeta) {''', '''	if !injectRequired(nil, wh.Config, &pod.Spec, pod.ObjectMeta) {''')]),
+    "R1b-request-namespace-fallback-deleted": (WH, [('''	if pod.ObjectMeta.Namespace == "" {
+		pod.ObjectMeta.Namespace = req.Namespace
+	}
+''', "")]),
+    "R2-hostnetwork-unless-dns-clusterfirstwithhostnet": (INJ, [('''	if podSpec.HostNetwork {
+		return false
+	}
+
+	// skip special kubernetes system namespaces''', '''	if podSpec.HostNetwork && podSpec.DNSPolicy != corev1.DNSClusterFirstWithHostNet {
+		return false
+	}
+
+	// skip special kubernetes system namespaces''')]),
+    "R3-network-label-garbled": (WH, [('''		pod.Labels[label.TopologyNetwork.Name] = nw''', '''		pod.Labels[label.TopologyNetwork.Name] = nw + "-x"''')]),
+    "R3b-network-label-dropped": (WH, [('''		pod.Labels[label.TopologyNetwork.Name] = nw''', '''		_, _ = label.TopologyNetwork.Name, nw''')]),
+    "R5-valid-annotation-rejected": ("pkg/kube/inject/validate.go", [('''		annotation.IoIstioRerouteVirtualInterfaces.Name:           ValidateExcludeInterfaces,''', '''		annotation.IoIstioRerouteVirtualInterfaces.Name:           validateBool,''')]),
+    "R6-revert-F10f-env-dedupe": (WH, [('''	dedupeSidecarEnv(pod)
+
+''', "")]),
+    "R7-kubeinject-ignores-label": (INJ, [('''		if !injectRequired(IgnoredNamespaces.UnsortedList(), &Config{Policy: InjectionPolicyEnabled}, &pod.Spec, pod.ObjectMeta) {''', '''		if false && !injectRequired(IgnoredNamespaces.UnsortedList(), &Config{Policy: InjectionPolicyEnabled}, &pod.Spec, pod.ObjectMeta) {''')]),
     "P7-status-annotation-not-stripped": (INJ, [('''	delete(pod.Annotations, annotation.SidecarStatus.Name)
 
 	return pod''', '''	return pod''')]),
